@@ -125,8 +125,14 @@ func (p *publisher) newSubscriber(c *z.Closer, matches []pb.Match) (subscriber, 
 	s.active.Store(1)
 
 	p.subscribers[id] = s
-	for _, m := range matches {
+	for i, m := range matches {
 		if err := p.indexer.AddMatch(m, id); err != nil {
+			// Leave nothing behind: a subscriber that stays registered without anybody reading its
+			// channel blocks the publisher (and with it every write and Close) once the channel is full.
+			for _, added := range matches[:i] {
+				_ = p.indexer.DeleteMatch(added, id)
+			}
+			delete(p.subscribers, id)
 			return subscriber{}, err
 		}
 	}
